@@ -83,6 +83,16 @@ def build_app():
                 if how.startswith('exc-'):
                     raise {'key': KeyError, 'type': TypeError, 'index': IndexError, 'zero': ZeroDivisionError, 'attr': AttributeError,
                            'runtime': RuntimeError, 'os': OSError, 'lookup': LookupError, 'assert': AssertionError}[how[4:]]('flaky ' + how)
+                if how.startswith('odd-'):
+                    # status codes no registry knows: valid on the wire, and what the request is counted under
+                    what, code = how[4:].split('-')
+                    code = int(code)
+                    if what == 'resp':
+                        return Response('odd status', status=code, mimetype='text/plain')
+                    err = errors.BadRequest('odd status', code=code)
+                    if what == 'ret':
+                        return err
+                    raise err
                 if how.startswith('code-'):
                     raise {'400': errors.BadRequest, '401': errors.Unauthorized, '404': errors.NotFound, '409': errors.Conflict,
                            '410': errors.Gone, '429': errors.TooManyRequests, '502': errors.BadGateway, '503': errors.ServiceUnavailable}[how[5:]]('flaky')
@@ -149,6 +159,10 @@ REQS = [
     ('200', 'GET', '/flaky/slow-s-fine', [('/flaky/<x>', '200')]), ('uncaught', 'GET', '/flaky/slow-s-exc-os', [('/flaky/<x>', 'OSError')]),
     ('uncaught', 'GET', '/flaky/slow-m-boom', [('/flaky/<x>', 'ValueError')]), ('raised-4xx', 'GET', '/flaky/slow-s-code-404', [('/flaky/<x>', '404')]),
     ('returned-4xx', 'GET', '/flaky/slow-m-teapot', [('/flaky/<x>', '418')]), ('uncaught', 'POST', '/flaky/slow-s-exc-lookup', [('/flaky/<x>', 'LookupError')]),
+    # status codes outside the registries
+    ('200', 'GET', '/flaky/odd-resp-299', [('/flaky/<x>', '299')]), ('returned-4xx', 'GET', '/flaky/odd-resp-499', [('/flaky/<x>', '499')]),
+    ('raised-4xx', 'GET', '/flaky/odd-raise-420', [('/flaky/<x>', '420')]), ('returned-4xx', 'GET', '/flaky/odd-ret-444', [('/flaky/<x>', '444')]),
+    ('raised-4xx', 'POST', '/flaky/odd-raise-599', [('/flaky/<x>', '599')]), ('200', 'GET', '/flaky/odd-resp-209', [('/flaky/<x>', '209')]),
 ]
 
 
@@ -192,7 +206,12 @@ def part_a_history(sh, rng, steps):
             spy_reached = [e[1] for e in tr['events'] if e[0] == 'reached']
             expected_spy = [p for p, _ in reached if p != '/<_ignored*>']
             if spy_reached != expected_spy:
-                raise RuntimeError('scenario drifted: %s %s reached %r, table says %r' % (method, path, spy_reached, expected_spy))
+                # which routes a request reaches is fixed by the dispatch rules (C06); on the unchanged tree the table and
+                # the endpoints' own log agree for every request of the catalogue.  A request that runs a route twice (or
+                # not at all) cannot be "counted exactly once for that route" in any meaningful way
+                fail('request-reached-routes-differently', '%s %s ran the endpoints of %r, the dispatch rules say %r'
+                     % (method, path, spy_reached, expected_spy))
+                return
             for p, st in reached:
                 model[(p, st)] += 1
             if kind not in ('200',):
